@@ -132,10 +132,13 @@ int_arb!(u8, u16, u32, u64, u128, usize, i8, i16, i32, i64, i128, isize);
 
 impl Arbitrary for bool {
     fn any() -> Self {
-        let mut b = next_bytes(1);
         if std::env::var("VERIF_REPLAY_SEARCH").is_ok() {
-            b[0] &= 1;
+            // (drawn and logged as 0/1 so that the stored witness replays in normal mode)
+            let v = (rnd() >> 17) & 1;
+            eprintln!("DRAW {:02x}", v);
+            return v == 1;
         }
+        let b = next_bytes(1);
         if b[0] > 1 {
             // Kani's bool::any() assumes the byte is 0 or 1
             std::process::exit(77);
